@@ -95,6 +95,16 @@ func (s *gkvp) SerializeValueTo(pc *PrintCtx) {
 }
 
 func (s Attrs) SerializeValueTo(pc *PrintCtx) {
+	if pc.jsonMode {
+		// a group is a nested JSON object: braces around the members and
+		// no separator before the first one
+		pc.pcAppendByte('{')
+		pc.skipFirstSep = true
+		_ = serializeAttrs(pc, s)
+		pc.skipFirstSep = false
+		pc.pcAppendByte('}')
+		return
+	}
 	_ = serializeAttrs(pc, s)
 }
 
@@ -160,12 +170,16 @@ func serializeAttrs(pc *PrintCtx, kvps Attrs) (err error) { //nolint:revive
 		})
 	}
 
+	skipSep := pc.skipFirstSep
+	pc.skipFirstSep = false
 	for _, v := range kvps {
 		if v == nil {
 			continue
 		}
 
-		if pc.noColor {
+		if skipSep {
+			skipSep = false
+		} else if pc.noColor {
 			pc.pcAppendComma()
 		} else {
 			pc.pcAppendByte(' ')
